@@ -5,7 +5,7 @@ not change the answer.
 import ast
 
 from .core import dotted, walk_body
-from .sym import Sym, mkphi
+from .sym import Sym, mkphi, mknot
 
 
 # ---------------------------------------------------------------- canonical values
@@ -18,7 +18,8 @@ def leaves(v, conds=()):
 
 
 def neg(c):
-    return c[1] if isinstance(c, tuple) and c and c[0] == "not" else ("not", c)
+    from .sym import mknot
+    return mknot(c)
 
 
 def flat_conds(conds):
